@@ -28,6 +28,12 @@ func (x *Exec) detObligation(name string, ok bool, why string, n ast.Node) {
 // detCheck walks the body of a deterministic function.
 func (x *Exec) detCheck(body *ast.BlockStmt) {
 	nRange, nSel, nGo, nCall := 0, 0, 0, 0
+	// `opt det map-order-only`: messages received in a select and goroutines feeding
+	// channels count as inputs; only map order, clocks and unseeded randomness are checked.
+	mapOnly := false
+	if top := x.topFrame(); top != nil && top.contract != nil && top.contract.Opts["det"] == "map-order-only" {
+		mapOnly = true
+	}
 	var walkBlock func(list []ast.Stmt)
 	var walkStmt func(s ast.Stmt, rest []ast.Stmt)
 	walkBlock = func(list []ast.Stmt) {
@@ -117,9 +123,18 @@ func (x *Exec) detCheck(body *ast.BlockStmt) {
 			}
 		case *ast.SelectStmt:
 			nSel++
+			if mapOnly {
+				for _, c := range s.Body.List {
+					walkBlock(c.(*ast.CommClause).Body)
+				}
+				break
+			}
 			x.detObligation(fmt.Sprintf("det:select@%d", nSel), false, "select in a deterministic function", s)
 		case *ast.GoStmt:
 			nGo++
+			if mapOnly {
+				break
+			}
 			x.detObligation(fmt.Sprintf("det:go@%d", nGo), false, "goroutine in a deterministic function", s)
 		case *ast.LabeledStmt:
 			walkStmt(s.Stmt, rest)
